@@ -521,6 +521,9 @@ func (env *Env) evalCall(t *ECall) Value {
 		if isString(v.T) {
 			return Value{T: types.Typ[types.String], L: v.L}
 		}
+		if r, ok := x.strOfBytes(env.st, v); ok {
+			return Value{T: types.Typ[types.String], L: []Term{r}}
+		}
 		env.fail("string() of %s", v.T)
 	}
 	if t.Fn == "local" && len(t.Args) == 1 {
